@@ -213,6 +213,25 @@ fn generate(cli: &Cli) -> (Vec<Case>, Vec<String>) {
         }
     }
 
+    let frames: Vec<(&str, Pkt)> = vec![
+        ("PluginMessageSmall", plugin_message(4)),
+        ("PluginMessageBig", plugin_message(300)),
+        ("ResourcePackResponse", Pkt::ResourcePackResponse { uuid: 99, result: 0 }),
+        ("ConfCookieResponse", Pkt::ConfCookieResponse { raw: vec![1, b'k', 0] }),
+        ("ClientInformationAgain", client_information("de_de")),
+    ];
+    // F10: the transport delays a whole tolerated frame until routing is over (it is then never
+    // read): same outcome as when it arrives in the middle of a backend call
+    for (fname, pkt) in &frames {
+        for at_ms in [1_000u64, 3_000, 5_000] {
+            let spec = BaseSpec { name: "delayed-frame", intent: Intent::Login, secret: true, lat: [2_000, 2_000, 2_000], extras: vec![(at_ms, pkt.clone())], no_target: false, ci_delay_ms: 0 };
+            let base = build_base(&spec, cli.seed ^ 0xfb);
+            let late = BaseSpec { name: "delayed-frame", intent: Intent::Login, secret: true, lat: [2_000, 2_000, 2_000], extras: vec![(9_000, pkt.clone())], no_target: false, ci_delay_ms: 0 };
+            let variant = build_base(&late, cli.seed ^ 0xfb);
+            cases.push(Case { class: format!("delayed-frame/{fname}/during-stage-at-{at_ms}ms-vs-after-routing"), shape: format!("read/frame-delayed-past-routing/{fname}"), base, variant });
+        }
+    }
+
     // F8: a client that pipelines instead of waiting for replies (frames coalesce in the socket
     // buffer, also across the switch to encryption): same trace as the reactive client
     for (bi, spec) in bases().iter().enumerate() {
@@ -237,13 +256,6 @@ fn generate(cli: &Cli) -> (Vec<Case>, Vec<String>) {
     }
 
     // F4: a backend completion lands between the two segments of a configuration-phase frame
-    let frames: Vec<(&str, Pkt)> = vec![
-        ("PluginMessageSmall", plugin_message(4)),
-        ("PluginMessageBig", plugin_message(300)),
-        ("ResourcePackResponse", Pkt::ResourcePackResponse { uuid: 99, result: 0 }),
-        ("ConfCookieResponse", Pkt::ConfCookieResponse { raw: vec![1, b'k', 0] }),
-        ("ClientInformationAgain", client_information("de_de")),
-    ];
     for stage in 0..3usize {
         let stage_name = ["discovery", "filter", "strategy"][stage];
         for (fname, pkt) in &frames {
@@ -312,6 +324,11 @@ fn generate(cli: &Cli) -> (Vec<Case>, Vec<String>) {
         let tick_ms = tick_ns / MS;
         let mut lat = [2_000u64, 2_000, 2_000];
         lat[stage] = tick_ms + 100 - lat[..stage].iter().sum::<u64>();
+        // routing goes on for two more keep-alive periods after the raced stage: whatever was half
+        // written must reach the client without waiting for the next packet
+        if stage < 2 {
+            lat[2] = 40_000;
+        }
         let spec = BaseSpec { name: "race-echo", intent: Intent::Login, secret: true, lat, extras: vec![], no_target: false, ci_delay_ms: 0 };
         let base = build_base(&spec, cli.seed ^ 0xf6 ^ (stage as u64) << 8);
         let brun = run(&base);
